@@ -366,3 +366,76 @@ Proof.
   - intros Ha Hg. unfold msc_limit_act, msc_apply_act. cbn [mstat with_step ms_geom ms_true].
     rewrite Ha. numR. destruct (Rltb_spec 0 g); [|lra]. cbn. split; reflexivity.
 Qed.
+
+(** ** calc_physics_step_limit: a stopped particle *)
+
+Lemma calc_limit_stopped mfp xs he es fx np :
+  calc_physics_step_limit (T:=R) true mfp xs he es fx np = (0, ADiscrete).
+Proof. reflexivity. Qed.
+
+Lemma calc_limit_le_mfp mfp xs he es fx np :
+  fst (calc_physics_step_limit (T:=R) false mfp xs he es fx np) <= mfp / xs.
+Proof.
+  unfold calc_physics_step_limit. numR.
+  destruct he; [|destruct np; cbn; lra].
+  destruct (Rleb_spec es (mfp / xs)); cbn [andb];
+    destruct (Rltb_spec 0 fx); cbn [andb fst];
+    try match goal with |- context [Rltb ?a ?b] => destruct (Rltb_spec a b) end; cbn; lra.
+Qed.
+
+(** a stopped, live particle whose step limit comes from calc_physics_step_limit takes a
+    zero-length step in place (no motion, no time, no loss) that is handed to the DISCRETE
+    action: discrete-select runs and the at-rest interaction is the post-step action *)
+Theorem stopped_particle_interacts_at_rest fx i (s : simR) mfp xs he es fl np :
+  (mstat s = Initializing \/ mstat s = Alive) ->
+  mE s = 0 ->
+  (in_phys_step i, in_phys_action i) = calc_physics_step_limit true mfp xs he es fl np ->
+  let a := along_step_act i (pre_step i s) in
+  mstep a = 0 /\ mpost a = ADiscrete /\ mpos a = mpos s /\ mtime a = mtime s /\ mE a = 0
+  /\ mstat a = Alive
+  /\ mpost (discrete_select i a) = in_select i
+  /\ (in_select i = AModel ->
+      mpost (interact_act fx i (discrete_select i a)) = AModel
+      \/ mpost (interact_act fx i (discrete_select i a)) = AFailure).
+Proof.
+  intros Hs HE Hl. rewrite calc_limit_stopped in Hl. inversion Hl as [[H1 H2]].
+  assert (Hne : mstat s <> Errored) by (destruct Hs as [Hs|Hs]; rewrite Hs; discriminate).
+  assert (H0 : pre_step i s =
+    mkSim (mtime s) (mpos s) (mdir s) (mvol s) 0 ADiscrete Alive (mnsteps s) 0 (mm s) (manti s) 0 []
+          (if Rltb 0 (mmfp s) then mmfp s else in_newmfp i)).
+  { unfold pre_step. rewrite H1, H2, HE. destruct Hs as [Hs|Hs]; rewrite Hs; numR; reflexivity. }
+  cbn zeta. rewrite H0. unfold along_step_act. cbn [mstat]. unfold along_step.
+  set (s0 := mkSim _ _ _ _ _ _ _ _ _ _ _ _ _ _).
+  assert (P : propagate_apply i s0 = s0).
+  { unfold propagate_apply. subst s0. cbn [mstep]. numR.
+    unfold Reqb. destruct (Req_EM_T 0 0); [reflexivity|congruence]. }
+  rewrite P.
+  assert (Tm : mtime (time_update i s0) = mtime s /\ time_update i s0
+               = mkSim (mtime (time_update i s0)) (mpos s) (mdir s) (mvol s) 0 ADiscrete Alive
+                       (mnsteps s) 0 (mm s) (manti s) 0 [] (mmfp s0)).
+  { unfold time_update. subst s0. cbn [mstat mstep mtime]. numR.
+    destruct (Rltb_spec 0 (in_speed i)); cbn; split; try reflexivity.
+    unfold Rdiv. rewrite Rmult_0_l, Rplus_0_r. reflexivity. }
+  destruct Tm as [Tm1 Tm2]. rewrite Tm2.
+  set (s1 := mkSim _ _ _ _ _ _ _ _ _ _ _ _ _ _).
+  assert (El : eloss_act i s1 = s1).
+  { unfold eloss_act, eloss_apply, with_slot, slot_of, is_stopped. subst s1.
+    cbn [mstat mE mm manti mdep mpost msecs strk tE mtime mpos mdir mvol mstep mnsteps mmfp].
+    numR. unfold Reqb. destruct (Req_EM_T 0 0); [|congruence].
+    rewrite Bool.orb_true_r. cbn. reflexivity. }
+  rewrite El. unfold track_update. subst s1. cbn [mstat mpost paction_eqb].
+  cbn [mstep mpost mpos mtime mE mstat].
+  repeat split; try reflexivity; try exact Tm1; try (symmetry; assumption).
+  intros Hsel. unfold discrete_select. cbn [mpost paction_eqb]. unfold interact_act.
+  cbn [mpost]. rewrite Hsel. cbn [paction_eqb].
+  destruct (interaction_apply _ _ _ _) as [x f] eqn:Ei.
+  destruct f.
+  - destruct fx; [right; reflexivity|].
+    (* old branch: the step is already 0, step_limit({0, failure}) is not limiting *)
+    left. unfold step_limit. cbn [mstep]. numR.
+    destruct (Rltb_spec 0 0); [lra|]. reflexivity.
+  - left. unfold interaction_apply in Ei. cbn [slot_of mpost spost] in Ei.
+      destruct (iact (in_inter i)); try (inversion Ei; subst; cbn; reflexivity);
+        destruct (if in_apply_post i then _ else _) as [d secs] in Ei;
+        inversion Ei; subst; cbn; reflexivity.
+Qed.
